@@ -7,7 +7,7 @@ from . import common
 
 ID = 'C12'
 LEVEL = 'exploration'
-BUDGET = {'quick': (6000, 70.0), 'thorough': (300000, 1500.0)}
+BUDGET = {'quick': (6000, 80.0), 'thorough': (300000, 1500.0)}
 RULE = ('one real ECU; a generated history of up to 12 add_timer / remove_timer / subscribe / unsubscribe operations (periods on a grid 1 ms..3 s, one-shot and '
         'periodic, duplicate registrations of one callback, callbacks removing themselves) issued from the application context or from inside a timer callback, '
         'with idle gaps from 0 to several periods and injected frames for the subscribers; each registration carries a unique cookie so every call is attributed; '
